@@ -89,7 +89,7 @@ func (m c17MW) build() mocrelay.Middleware {
 	case "upper":
 		return mocrelay.Middleware(mocrelay.NewCreatedAtUpperLimitMiddleware(m.N))
 	case "window":
-		return mocrelay.Middleware(mocrelay.NewEventCreatedAtMiddleware(time.Duration(m.From)*time.Second, time.Duration(m.To)*time.Second))
+		return mocrelay.Middleware(mocrelay.NewEventCreatedAtMiddleware(c17Dur(m.From), c17Dur(m.To)))
 	case "allow":
 		return mocrelay.Middleware(mocrelay.NewRecvEventAllowFilterMiddleware(c17Matcher{m.Filter}))
 	case "deny":
@@ -166,6 +166,18 @@ func (m c17MW) respects(msg mocrelay.ClientMsg, now int64) bool {
 		}
 	}
 	return true
+}
+
+// c17Dur turns seconds into a Duration; the two ends of the int64 range stand for "no bound"
+// (the smallest / largest Duration there is).
+func c17Dur(sec int64) time.Duration {
+	switch sec {
+	case math.MinInt64:
+		return time.Duration(math.MinInt64)
+	case math.MaxInt64:
+		return time.Duration(math.MaxInt64)
+	}
+	return time.Duration(sec) * time.Second
 }
 
 // boundaries returns the moving created_at boundaries of the middleware.
@@ -1855,12 +1867,19 @@ func c17RandomMW(r *rand.Rand, kind string) c17MW {
 	case "content":
 		m.N = vk.Pick(r, []int64{1, 2, 10, 100, 1000})
 	case "lower", "upper":
-		m.N = vk.Pick(r, []int64{0, 1, 59, 600, 86400, 10 * c17Year, 400 * c17Year, math.MaxInt64})
+		// negative: "at least that far on the other side of now"
+		m.N = vk.Pick(r, []int64{0, 1, 59, 600, 86400, 10 * c17Year, 400 * c17Year, math.MaxInt64, -3600, -86400})
 	case "window":
 		m.From = vk.Pick(r, []int64{-10 * c17Year, -86400, -600, -1, 0, 300})
 		m.To = m.From + vk.Pick(r, []int64{1, 600, 86400, 86400, 5 * c17Year})
 		if r.IntN(12) == 0 {
 			m.To = m.From - 1 - int64(r.IntN(500)) // empty window: nothing respects it
+		}
+		switch r.IntN(10) {
+		case 0: // no lower bound
+			m.From, m.To = math.MinInt64, vk.Pick(r, []int64{600, 86400, math.MaxInt64})
+		case 1: // no upper bound
+			m.To = math.MaxInt64
 		}
 	case "allow", "deny":
 		m.Filter = c17MatcherFilter(r)
@@ -1918,11 +1937,11 @@ func c17NIP11Doc(r *rand.Rand, variant int) (*mocrelay.NIP11, []c17MW) {
 		mws = append(mws, c17MW{Kind: "content", N: int64(l.MaxContentLength)})
 	}
 	if variant&32 != 0 {
-		l.CreatedAtLowerLimit = vk.Pick(r, []int64{11, 1800, 94608000, 3 * c17Year})
+		l.CreatedAtLowerLimit = vk.Pick(r, []int64{11, 1800, 94608000, 3 * c17Year, -7200})
 		mws = append(mws, c17MW{Kind: "lower", N: l.CreatedAtLowerLimit})
 	}
 	if variant&64 != 0 {
-		l.CreatedAtUpperLimit = vk.Pick(r, []int64{12, 900, 86400, 2 * c17Year})
+		l.CreatedAtUpperLimit = vk.Pick(r, []int64{12, 900, 86400, 2 * c17Year, -7200})
 		mws = append(mws, c17MW{Kind: "upper", N: l.CreatedAtUpperLimit})
 	}
 	return doc, mws
